@@ -12,6 +12,8 @@
 #include "K_get_bin_for_det_pos_pair.c"
 #include "K_get_det_pair_for_bin.c"
 #include "K_get_det_pos_pair_for_bin.c"
+#include "K_get_num_det_pos_pairs_for_bin.c"
+#include "K_get_all_det_pos_pairs_for_bin.c"
 #include "K_get_num_axial_poss_per_ring_inc.c"
 #include "K_get_segment_num_for_ring_difference.c"
 #include "K_get_segment_axial_pos_num_for_ring_pair.c"
@@ -190,3 +192,13 @@ void h_lemma_ring_inverse(void)
   __CPROVER_assert(0, "vacuity canary");
 #endif
 }
+
+/* ---------- get_all_det_pos_pairs_for_bin ---------- */
+static void ghosts_dps(void)
+{
+  g_error = 0; g_nrp = nondet_int(); g_j = nondet_int(); g_jfirst = nondet_int(); g_jsecond = nondet_int(); g_rpl_seg = nondet_int(); g_rpl_ax = nondet_int();
+  g_i = nondet_int(); g_l = nondet_int(); g_k = nondet_ulong(); g_dps_size = nondet_ulong(); g_dps_resized = 0;
+  g_wd_p1_tang = 0; g_wd_p1_axial = 0; g_wd_p2_tang = 0; g_wd_p2_axial = 0; g_wd_timing_pos = 0;
+}
+void h_K_get_num_det_pos_pairs_for_bin(void) { struct PDI1* s; struct Bin* b; ghosts_dps(); K_get_num_det_pos_pairs_for_bin(s, b, nondet_bool()); }
+void h_K_get_all_det_pos_pairs_for_bin(void) { struct PDI1* s; struct Bin* b; ghosts_dps(); K_get_all_det_pos_pairs_for_bin(s, b, nondet_bool()); }
